@@ -159,9 +159,19 @@ func c16Exec(x *Ctx) {
 				x.Violate("w0-mount", "mount failed: %v", err)
 				return
 			}
-			for _, e := range tree {
-				if e.Rel == "" {
-					continue
+			for ti, e := range tree {
+				if e.Rel == "" || ti%7 == 3 {
+					// the root itself, by its two spellings: resolving it must not disturb later look-ups
+					rp := []string{"/", ""}[ti%2]
+					if d, err := clnt.FStat(rp); err != nil {
+						x.Violate("w7-client-path", "FStat(%q) of the root failed: %v", rp, err)
+					} else if d.Qid.Type&0x80 == 0 {
+						x.Violate("w7-client-path", "FStat(%q) of the root returned a qid that is not a directory's", rp)
+					}
+					x.Probe("client-resolves-the-root")
+					if e.Rel == "" {
+						continue
+					}
 				}
 				p := e.Rel
 				if r.Pct(30) {
